@@ -20,7 +20,7 @@ RULE = (
     "Oracles: (1) paint.transformed(A): every emitted field is quantised as its OpenType type, the affine is rebuilt from the COLR "
     "spec formula and must equal A over a probe box within the propagated quantisation bound; gettransform()==A; (2) the same paint "
     "compiled into a real COLR table and decompiled must place a square's corners within that bound, or the build must raise when a "
-    "field is out of range; (3) _decompose_uniform_transform: uniform part is a uniform scale+translate and uniform o residual == A; "
+    "field is out of range, and nanoemoji's decoder (Paint.from_ot(...).gettransform()) must read the compiled paint as the matrix the COLR spec gives it; (3) _decompose_uniform_transform: uniform part is a uniform scale+translate and uniform o residual == A; "
     "(4) gradient.apply_transform(A) compiled into a font: colour at A.q equals the original's colour at q (interval oracle), "
     "out-of-range geometry raises; (5) ~1 % of the cases are whole COLRv1 builds in which a gradient-filled shape is a 3-130x smaller copy of "
     "an earlier shape placed so that mapping the gradient by the inverse reuse transform leaves int16 (the write_font.py anchor: the "
@@ -275,6 +275,21 @@ def judge_affine(case, v):
     if len(lfs) != 1:
         v.fail("roundtrip-structure", name, {"A": A, "n": len(lfs)})
         return
+    # (2b) the inverse direction: nanoemoji's own decoder (Paint.from_ot + gettransform, used when COLR is turned back into SVG)
+    # applied to the compiled transform paint must give the matrix the COLR spec assigns to those fields (our reader's)
+    otp = font["COLR"].table.BaseGlyphList.BaseGlyphPaintRecord[0].Paint
+    if p is not leaf and otp.Format not in (10,):
+        from nanoemoji.paint import Paint
+
+        try:
+            back = tuple(Paint.from_ot(otp).gettransform())
+        except Exception as e:
+            v.fail("from-ot-raised", name + ":" + type(e).__name__, {"A": A, "error": repr(e)[:300]})
+            return
+        spec = paint_matrix(otp.Format, ColrReader(font)._getter(otp))
+        if any(abs(x - y) > 1e-6 * max(1.0, abs(y)) for x, y in zip(back, spec)):
+            v.fail("from-ot-gettransform-mismatch", name, {"A": A, "from_ot": back, "spec": spec})
+            return
     got = [s[1] for s in lfs[0].segs[0]]
     # TrueType glyph contour start/direction are preserved by the glyf table for a simple polygon
     want = [aapply(A, q) for q in SQ]
